@@ -144,6 +144,18 @@ class Registry:
             self.variants.setdefault(spec.qual, []).append(spec)
         return spec
 
+    def add_harness(self, name, source):
+        """A proof harness: a few lines of Python (in the spec file) that only SEQUENCE calls of real repository
+        functions (convert there, convert back); it is parsed and executed symbolically like a repository function,
+        its callees being the real code (inlined) or their contracts.  Qualified name 'harness:<name>'."""
+        import ast as _ast
+        from .extract import FuncInfo
+        node = _ast.parse(source).body[0]
+        fi = FuncInfo("harness", None, name, node, "specs (proof harness)")
+        fi.qual = "harness:" + name
+        self.index.funcs[fi.qual] = fi
+        return fi
+
     def field(self, cls, name, kind):
         self.fields[(cls, name)] = parse_kind(kind) if isinstance(kind, str) else kind
 
@@ -601,6 +613,10 @@ class Executor:
     def index_of(self, l, idx, st, node):
         """Python index semantics with negative wrap-around; emits the IndexError obligation."""
         i = to_int(idx)
+        if not z3.is_int_value(i):
+            si = z3.simplify(i)
+            if z3.is_int_value(si):
+                i = si
         n = list_len(l)
         if z3.is_int_value(i):
             if i.as_long() >= 0:
@@ -963,10 +979,14 @@ class Executor:
             if cls in spec.fresh and (cls + "." + field) not in spec.modifies:
                 olda = sub.heap_arrays(post, cls, field)
                 r = z3.Int(uid("fr"))
-                post.heap[(cls, field)] = [
-                    z3.Lambda([r], z3.If(r < a0.terms[0], z3.Select(o, r),
-                                         z3.Select(z3.Const(uid("H_%s_%s" % (cls, field)), o.sort()), r)))
-                    for o in olda]
+                # objects of a `fresh` class that existed before the call keep the field; only objects allocated by
+                # the call may differ.  Encoded as a new array with a frame axiom (instantiated by reads of the new
+                # array) rather than as a lambda term, which keeps later terms small.
+                newa = [z3.Const(uid("H_%s_%s" % (cls, field)), o.sort()) for o in olda]
+                for o, nw in zip(olda, newa):
+                    self.ctx.assume(st, z3.ForAll([r], implies(r < a0.terms[0], z3.Select(nw, r) == z3.Select(o, r)),
+                                                  patterns=[z3.Select(nw, r)]))
+                post.heap[(cls, field)] = newa
         rk = self.kind_of(spec.returns)
         res = fresh(rk, "ret_" + fi.name)
         for fact in basic_facts(res):
